@@ -71,9 +71,10 @@ StrChar(c, sty) ==
     ELSE IF c >= 128 /\ c < 65536 /\ sty.esc # 1 THEN <<BSL, 117>> \o Hex4(c, sty.esc = 3)
     ELSE <<c>>
 SpellStr(t, sty) == <<DQ>> \o FoldLeft(LAMBDA acc, c : acc \o StrChar(c, sty), <<>>, t) \o <<DQ>>
+\* the grammar gives a URI no short escapes (\n, \t ... belong to strings): a control character is \uxxxx
 UriChar(c, sty) ==
     IF c = BT \/ c = BSL THEN <<BSL, c>>
-    ELSE IF c < 32 THEN (IF ShortEsc(c) # 0 /\ sty.esc # 3 THEN <<BSL, ShortEsc(c)>> ELSE <<BSL, 117>> \o Hex4(c, sty.esc = 3))
+    ELSE IF c < 32 THEN <<BSL, 117>> \o Hex4(c, sty.esc = 3)
     ELSE IF c >= 128 /\ c < 65536 /\ sty.esc # 1 THEN <<BSL, 117>> \o Hex4(c, sty.esc = 3)
     ELSE <<c>>
 SpellUri(t, sty) == <<BT>> \o FoldLeft(LAMBDA acc, c : acc \o UriChar(c, sty), <<>>, t) \o <<BT>>
